@@ -149,6 +149,7 @@ def case_product(log, d, err1, err2):
     struct = sym_module("eko.io.struct")
     log.encode(utils.ekos_product, struct.EKO.approx)
     rk = {"d": list(d), "err1": err1, "err2": err2}
+    d = tuple(d)
 
     def run():
         DISK.clear()
@@ -186,7 +187,8 @@ def case_product(log, d, err1, err2):
             else:
                 v = prove_all_zero([got.error[i] - want_e[i] for i in rnp.ndindex(want_e.shape)],
                                    "target %r: error == |B|.|dA| + |dB|.|A|  (rule of eko.runner.operators._dotop)" % (ep,))
-            decide(log, v, key="ekos_product:error", replay=(MOD, "replay_product", dict(rk, what="error")), sampler=_sampler)
+            # 1x1 operators commute: there the error rule is checked independently of the contraction order
+            decide(log, v, key="ekos_product:error-abs" if d == (1, 1) else "ekos_product:error", replay=(MOD, "replay_product", dict(rk, what="error")), sampler=_sampler)
             other = cp.ops.get(ep)
             same = other is not None and (other.error is None) == (got.error is None)
             diffs = [] if not same else [got.operator[i] - other.operator[i] for i in rnp.ndindex(want_v.shape)]
@@ -312,7 +314,7 @@ def _disk_ekos(tmp, d, ops_ini, ops_fin, init_fin):
     out = []
     for name, init, ops in (("ini", (2.0, 4), ops_ini), ("fin", init_fin, ops_fin)):
         oc = cards.example.operator()
-        oc.xgrid = interpolation.XGrid([0.2, 1.0] if d[1] == 2 else list(rnp.linspace(0.1, 1, d[1])))
+        oc.xgrid = interpolation.XGrid([0.2, 1.0] if d[1] <= 2 else list(rnp.linspace(0.1, 1, d[1])))
         oc.configs.interpolation_polynomial_degree = 1
         oc.init = init
         oc.mugrid = [(float(ep[0]) ** 0.5, ep[1]) for ep in ops]
@@ -450,7 +452,7 @@ def replay_match(point, stored):
 def main():
     chk = H.Check("C44")
     thorough = H.tier() == "thorough"
-    chk.bounds = ["operator tensors of shape (f,x,f,x) with (f,x) in {(2,2)} (quick) / {(2,2),(3,2),(2,3),(4,2)} (thorough); all entries of both operators and both errors symbolic reals of either sign (non-commuting)",
+    chk.bounds = ["operator tensors of shape (f,x,f,x) with (f,x) in {(1,1),(2,2)} (quick) / {(2,2),(3,2),(2,3),(4,2)} (thorough); all entries of both operators and both errors symbolic reals of either sign (non-commuting)",
                   "first EKO: 2 targets (one matched, nf=5; one other nf); second EKO: 3 targets of which 2 are new and 1 coincides with a target of the first",
                   "errors present/absent on either factor (4 combinations)",
                   "matching: initial scale m>0 of the second EKO symbolic, stored mu^2 in {(100), (100, 100.4), (100, 400)} plus the same scale with another nf; rtol=1e-3, atol=0.5 passed explicitly"]
@@ -466,6 +468,7 @@ def main():
             if d != (2, 2) and not (e1 and e2):
                 continue
             chk.case("product.%dx%d.err%d%d" % (d[0], d[1], e1, e2), case_product, d=d, err1=e1, err2=e2)
+    chk.case("product.1x1.err11", case_product, d=(1, 1), err1=True, err2=True)
     chk.case("match.single", case_match, stored=[100.0])
     chk.case("match.near-pair", case_match, stored=[100.0, 100.4])
     chk.case("match.far-pair", case_match, stored=[100.0, 400.0])
